@@ -76,7 +76,7 @@ def main():
     R = vp.Result("C08")
     R.assumptions = [
         "the pairing groups are vector spaces over the scalar field with a bilinear map that is non-degenerate at the generator (Section hypotheses of Tbls/Shamir.v, satisfiable: C08_bls_model_exists); hash-to-curve never outputs the point at infinity",
-        "primality of the BLS12-381 scalar order r is PROVED in Coq (C08_r_prime, Tbls/PrimeR.v: Lucas test with the complete factorisation of r-1, evaluated by vm_compute); the general theorems about the executable instance take an arbitrary prime modulus as hypothesis, the _r versions are unconditional",
+        "primality of the BLS12-381 scalar order r is PROVED in Coq (C08_r_prime, Tbls/PrimeR.v: Pocklington's test with the factored part 2^32*3*906349^2*254760293^2 > sqrt r of r-1, base 7, evaluated by vm_compute); the general theorems about the executable instance take an arbitrary prime modulus as hypothesis, the _r versions are unconditional",
         "share ids are 1..n with n below the field characteristic (C08_ids_1_to_n_ok)",
         "herumi (C library behind tbls.Herumi) is exercised, not verified: scalars are 32-byte big-endian, Deserialize rejects values >= r and accepts 0, Recover interpolates through all shares handed to it",
     ]
